@@ -26,7 +26,8 @@ from concurrent.futures import ThreadPoolExecutor
 
 from ..core import ToolError
 
-INVS = ["Inv_StoredOnlyIfHashMatches", "Inv_ProvenRootsAreTrue", "Inv_NoPanic", "Inv_Progressable"]
+INVS = ["Inv_StoredOnlyIfHashMatches", "Inv_ProvenRootsAreTrue", "Inv_NoPanic", "Inv_Progressable",
+        "Inv_NeverFlagged"]
 # action properties (checked by TLC on every transition; act/exp are outside the VIEW)
 PROPS = ["NoCorruption", "UnsolicitedIgnored", "GoodAnswersVerify", "InvalidChangesNothing", "DissemNeverWritten"]
 CHECKS = ["INVARIANTS", "  " + " ".join(INVS), "PROPERTIES", "  " + " ".join(PROPS)]
@@ -40,7 +41,7 @@ NEED_LABELS = ["populate:empty", "populate:other", "populate:same", "start", "ti
                "hostile:root:sr->sr:hit", "hostile:root:sh->sh:hit", "hostile:proof:lsr->lsr:hit",
                "hostile:proof:sr->sr:hit", "hostile:other:lsr->lsr:hit", "hostile:other:sr->sr:hit",
                "hostile:other:lsr->lsr:miss", "hostile:slot:sh->sh:hit", "hostile:sig:sh->sh:hit",
-               "hostile:payload:sh->sh:hit", "hostile:twin:sh->sh:hit", "hostile:index:sh->sh:hit"]
+               "hostile:payload:sh->sh:hit", "hostile:tag:sh->sh:hit", "hostile:twin:sh->sh:hit", "hostile:index:sh->sh:hit"]
 
 
 def cfg(ns, ng, thr, ascoded=False, budgets=False, max_hostile=0, max_timeouts=0, max_again=0, scen_len=1,
@@ -72,36 +73,43 @@ def classify_all(ctx, model, fps, examples):
         ctx.divergence(model, fp, examples.get(fp))
 
 
+def witness_run(ctx, shape, tag, bud):
+    """vacuity guards on one shape: reachability witnesses; the transcription of the round-1 code must break the property"""
+    ns, ng, thr = shape["ns"], shape["ng"], shape["thr"]
+    w = 1
+    ctx.witness(f"w_{tag}", "MC_Repair", cfg(ns, ng, thr, **bud), "", WITNESSES, workers=w)
+    # the pinned code's deviations, transcribed, break the property in the model
+    r = ctx.tlc(f"w_{tag}_W_TwinHit", "MC_Repair", cfg(ns, ng, thr, lines=["PROPERTY W_TwinHit"], **bud),
+                workers=w, timeout=600, expect_violation="W_TwinHit")
+    if r.violated != "W_TwinHit":
+        raise ToolError(f"vacuity: witness W_TwinHit not reachable in {tag} ({r.error or r.violated})")
+    for name, lines, dl in (("Inv_NoPanic", ["INVARIANT Inv_NoPanic"], False),
+                            ("Inv_StoredOnlyIfHashMatches", ["INVARIANT Inv_StoredOnlyIfHashMatches"], False),
+                            ("Inv_Progressable", ["INVARIANT Inv_Progressable"], False),
+                            ("InvalidChangesNothing", ["PROPERTY InvalidChangesNothing"], False),
+                            ("deadlock", [], True)):
+        r = ctx.tlc(f"ascoded_{tag}_{name}", "MC_Repair",
+                    cfg(ns, ng, thr, ascoded=True, deadlock=dl, lines=lines, **bud), workers=w,
+                    timeout=600, expect_violation=name)
+        if r.violated != name:
+            raise ToolError(f"vacuity: the transcription of the pinned code does not violate {name} in {tag} "
+                            f"({r.error or r.violated})")
+        ctx.notes.setdefault("ascoded_violates", []).append(f"{tag}:{name}")
+
+
+
 def shape_run(ctx, shape):
     ns, ng, thr = shape["ns"], shape["ng"], shape["thr"]
     tag = f"ns{ns}g{ng}" + ("a" if shape["again"] else "")
     bud = dict(budgets=True, max_hostile=shape["hostile"], max_timeouts=shape["timeouts"], max_again=shape["again"])
     w = 2
+    if shape.get("witness_only"):
+        return witness_run(ctx, shape, tag, bud)
 
     # ---- (check) the property on the spec, finite DAG, terminal states by deadlock checking
     ctx.tlc(f"check_{tag}", "MC_Repair",
             cfg(ns, ng, thr, deadlock=True, lines=CHECKS, **bud),
             workers=w, timeout=1500)
-    if shape.get("witness"):
-        ctx.witness(f"w_{tag}", "MC_Repair", cfg(ns, ng, thr, **bud), "", WITNESSES, workers=w)
-        # the pinned code's deviations, transcribed, break the property in the model
-        r = ctx.tlc(f"w_{tag}_W_TwinHit", "MC_Repair", cfg(ns, ng, thr, lines=["PROPERTY W_TwinHit"], **bud),
-                    workers=w, timeout=600, expect_violation="W_TwinHit")
-        if r.violated != "W_TwinHit":
-            raise ToolError(f"vacuity: witness W_TwinHit not reachable in {tag} ({r.error or r.violated})")
-        for name, lines, dl in (("Inv_NoPanic", ["INVARIANT Inv_NoPanic"], False),
-                                ("Inv_StoredOnlyIfHashMatches", ["INVARIANT Inv_StoredOnlyIfHashMatches"], False),
-                                ("Inv_Progressable", ["INVARIANT Inv_Progressable"], False),
-                                ("InvalidChangesNothing", ["PROPERTY InvalidChangesNothing"], False),
-                                ("deadlock", [], True)):
-            r = ctx.tlc(f"ascoded_{tag}_{name}", "MC_Repair",
-                        cfg(ns, ng, thr, ascoded=True, deadlock=dl, lines=lines, **bud), workers=w,
-                        timeout=600, expect_violation=name)
-            if r.violated != name:
-                raise ToolError(f"vacuity: the transcription of the pinned code does not violate {name} in {tag} "
-                                f"({r.error or r.violated})")
-            ctx.notes.setdefault("ascoded_violates", []).append(f"{tag}:{name}")
-
     # ---- (graph) every transition, replayed into the real objects
     r = ctx.tlc(f"graph_{tag}", "MC_Repair",
                 cfg(ns, ng, thr, max_again=shape["again"],
@@ -130,7 +138,7 @@ def shape_run(ctx, shape):
     classify_all(ctx, model, fps.keys(), {k: v["example"] for k, v in fps.items()})
     if short and len(ctx.violations) == nviol:
         raise ToolError(f"{model}: {rep['covered']} of {want} transitions replayed ({rep['edges']} dumped)")
-    if shape.get("witness"):
+    if shape.get("labels"):
         missing = [x for x in NEED_LABELS if x not in rep["act_hist"]]
         if missing and len(ctx.violations) == nviol:
             raise ToolError(f"vacuity: {model}: action classes never replayed: {missing}")
@@ -184,19 +192,21 @@ def run(ctx):
         "the leader of the repaired slot may be Byzantine (signs any slice with either last-flag, several blocks per slot)"]
     if ctx.tier == "quick":
         shapes = [
-            dict(ns=1, ng=2, thr=1, again=1, hostile=3, timeouts=2, witness=False, scen_len=2, scen_limit=150),
-            dict(ns=2, ng=2, thr=1, again=1, hostile=3, timeouts=2, witness=True, scen_len=2, scen_limit=400),
-            dict(ns=2, ng=4, thr=2, again=0, hostile=2, timeouts=1, witness=False, sample=7000),
+            dict(ns=2, ng=2, thr=1, again=1, hostile=3, timeouts=2, labels=True, scen_len=1),
+            dict(ns=2, ng=4, thr=2, again=0, hostile=2, timeouts=1, sample=7000),
+            dict(ns=1, ng=2, thr=1, again=1, hostile=3, timeouts=2, scen_len=2, scen_limit=450),
+            dict(ns=2, ng=2, thr=1, again=1, hostile=3, timeouts=2, witness_only=True),
         ]
-        par = 3
+        par = 4
     else:
         shapes = [
-            dict(ns=3, ng=4, thr=2, again=0, hostile=2, timeouts=1, witness=False, sample=100000),
-            dict(ns=2, ng=4, thr=2, again=1, hostile=3, timeouts=2, witness=False, sample=100000, scen_len=1),
-            dict(ns=3, ng=2, thr=1, again=1, hostile=3, timeouts=2, witness=False, scen_len=2, scen_limit=6000),
-            dict(ns=2, ng=4, thr=2, again=0, hostile=3, timeouts=2, witness=False),
-            dict(ns=2, ng=2, thr=1, again=1, hostile=5, timeouts=3, witness=True, scen_len=2),
-            dict(ns=1, ng=2, thr=1, again=1, hostile=6, timeouts=3, witness=False, scen_len=2),
+            dict(ns=3, ng=4, thr=2, again=0, hostile=2, timeouts=1, sample=100000),
+            dict(ns=2, ng=4, thr=2, again=1, hostile=3, timeouts=2, sample=100000, scen_len=1),
+            dict(ns=3, ng=2, thr=1, again=1, hostile=3, timeouts=2, scen_len=2, scen_limit=6000),
+            dict(ns=2, ng=4, thr=2, again=0, hostile=3, timeouts=2),
+            dict(ns=2, ng=2, thr=1, again=1, hostile=5, timeouts=3, labels=True, scen_len=2),
+            dict(ns=1, ng=2, thr=1, again=1, hostile=6, timeouts=3, scen_len=2),
+            dict(ns=2, ng=2, thr=1, again=1, hostile=5, timeouts=3, witness_only=True),
         ]
         par = 3
     with ThreadPoolExecutor(max_workers=par) as ex:
